@@ -48,7 +48,20 @@ def run(tier, seed):
         if phase != "forward":
             continue
         img = np.array([[i * 100 + j for j in range(H)] for i in range(W)])
-        desc = {"function": "trans_orientation" if f == "trans" else "image_flipping", "o": list(o), "W": W, "H": H}
+        # pixel types a detector delivers: counts beyond 2^24 and the 2^32-1 mask value (no float32 holds them), 16-bit frames, float64
+        # corrections with all 53 bits, boolean masks; the transformed image must carry the same VALUES (the type is not part of the property)
+        kind_ = (W * 8 + H + len(f)) % 6
+        if kind_ == 1:
+            img = img.astype(np.int64) + (1 << 40) + 1
+        elif kind_ == 2:
+            img = ((img.astype(np.int64) * 65521 + 4294901760) % 4294967296).astype(np.uint32)
+        elif kind_ == 3:
+            img = img.astype(np.float64) / 3.0 + 1e9
+        elif kind_ == 4:
+            img = img.astype(np.uint16)
+        elif kind_ == 5:
+            img = (img % 3 == 0)
+        desc = {"function": "trans_orientation" if f == "trans" else "image_flipping", "o": list(o), "W": W, "H": H, "dtype": str(img.dtype)}
         v.case(key[:4], nontrivial=(W * H > 1), sample=desc if (W, H, f) == (3, 5, "trans") and len(v.samples) < 4 else None)
         try:
             # the image functions are called on the caller's array itself (no copy), twice, with the guards of lattice_lib.twice
@@ -70,7 +83,7 @@ def run(tier, seed):
                         (desc["function"], list(o), W, H), desc)
         if f == "flip":
             # evidence only: the model of the coded composition predicts the forward result
-            if out.tolist() != x["out"]:
+            if kind_ == 0 and out.tolist() != x["out"]:
                 v.notes.append("model drift: image_flipping forward differs from Flips.tla for %s" % (desc,))
             continue
         # requirement A: pixel (x,y) stored at XyToDetyz(x,y)
